@@ -193,7 +193,7 @@ def run_module(unit, path, module, seed, use_cache=True):
         still = [u for u in und if u.get('fn') is None] if by_fn else list(und)
         for addr, fu in by_fn.items():
             decided = False
-            for attempt, s in enumerate([seed % 1000 + 1, seed % 1000 + 7]):
+            for attempt, s in enumerate([seed % 1000 + 1, seed % 1000 + 7, seed % 1000 + 29]):
                 res2 = runverus.run_verus_path(path, rlimit=120, module=module,
                                                extra=['--verify-function', verus_fn_name(addr), '--smt-option', 'smt.random_seed=%d' % s])
                 f2, u2, h2 = runverus.classify(unit, res2, path)
@@ -263,7 +263,7 @@ KEYWORDS = set('if while for loop match return let mut ref fn as in else break c
 
 # std methods whose vstd specifications are exact (a call to one of them cannot make an obligation fail for lack of a
 # specification), so a changed body may use them although the pinned body did not
-EXACT_STD = set('len is_empty push pop is_some is_none unwrap min'.split())
+EXACT_STD = set('len is_empty push pop is_some is_none unwrap min div_ceil'.split())
 
 
 def callees(text):
